@@ -100,7 +100,7 @@ def parseCase0 (toks : List String) : Option Case := do
         else if Spec.Resp.lowerAll k == Spec.Resp.sConnection then
           -- X04: `setSpecialHeader` for `Connection`: the bytes `close` set the close flag, any other value clears it
           -- (`ResetConnectionClose`) and is stored as a generic field (seen through the dump)
-          pure { c with respClose := v == strClose }
+          pure { c with respClose := Spec.Resp.lowerAll v == Spec.Resp.sClose }
         else pure c
       | _ => none) init
 
@@ -277,7 +277,7 @@ section Seq
 open Hertz.H1.RespSeq
 
 def parseReqConn : String → ReqConn
-  | "c" => .close | "k" => .keepAlive | "K" => .keepAlive | "-" => .absent | _ => .other
+  | "c" => .close | "C" => .close | "k" => .keepAlive | "K" => .keepAlive | "-" => .absent | _ => .other
 
 /-- `Error when parsing request` (`defaultErrorHandler`) -/
 def errMsg400 : Bytes := "Error when parsing request".toUTF8.toList
@@ -394,7 +394,7 @@ def specSeq : List QCase → Bytes → Bool × String × String
         let okMsg := m.status == c.prog.status && m.body == payloadOf c.prog c.req.isHead
         -- the connection option `close` is case-insensitive (RFC 7230 §6.1)
         let mustClose := q.srvClose || c.req.reqClose || c.respClose || q.reqCloseCase || q.respCloseCase
-        let cls := if q.reqCloseCase || q.respCloseCase then "connection-close-case" else ""
+        let cls := ""   -- the class `connection-close-case` was repaired in /repo (9dcdbe5): a return is a violation
         let okConn := c.earlyHeader ||
           (Spec.Resp.saysClose m == mustClose && (c.req.http11 || mustClose || Spec.Resp.saysKeepAlive m))
         if !okMsg then (false, "a response does not carry the handler's status and body", "")
